@@ -29,6 +29,19 @@ CHECKS = {
             "TLC enumerates cipher/extension/signature-algorithm/supported_versions/ALPN shapes up to the bound plus >99 shapes and proves the "
             "order/GREASE invariance on the specification; each state is an implementation test with SHA-256 applied by the harness; real handshakes as in C01.",
             "SHA-256, the harness hello synthesizer/parser and utls (as a client) are trusted; dont-care ALPN classes are logged only; known findings D9a, D9b are reported as KNOWN-FINDING."),
+    'C05': ("Rewrite.tla (request pipeline ServeHTTP -> ReverseProxy -> rewriteFunc, invariant NoSpoof) checked exhaustively by TLC; every scenario "
+            "(initial state) replayed through the real proxy stack with raw HTTP/1.1 and HTTP/2 clients and compared with the final state",
+            "All combinations of protocol, connection kind (every real injector outcome: value, empty, error), custom injector outcome and up to "
+            "MaxLines client-chosen lines (any letter case, repeated) are enumerated; for each the backend must see exactly the proxy-computed value or nothing.",
+            "The computed value is taken from a clean request on the same connection; the recording backend is net/http."),
+    'C09': ("Rewrite.tla invariant Truth checked by TLC; every scenario of family fwd replayed through the real listener/TLS/server chain",
+            "Protocol x PreserveHost x Host x client X-Forwarded-For/-Host/-Proto/Forwarded lines enumerated exhaustively; X-Forwarded-For must be the client's list "
+            "plus the TCP peer, X-Forwarded-Host the client's Host, X-Forwarded-Proto https, client Forwarded/XFH/XFP never passed on.",
+            "Clients connect from loopback (peer 127.0.0.1); :scheme https on HTTP/2."),
+    'C15': ("Rewrite.tla invariant ProbeXor checked by TLC; every scenario of family probe replayed through the real stack",
+            "User-Agent variants (absent, empty, prefix, infix, suffix, case, leading space), probe text in other places, methods, paths, both protocols and probe "
+            "support on/off are enumerated; each request is answered locally with 200 OK XOR forwarded exactly once, as the prefix predicate dictates.",
+            "Two disagreeing User-Agent lines are a dont-care class (logged). The flag wiring is replicated by the harness."),
 }
 
 NOT_YET = {}
